@@ -66,6 +66,13 @@ def _covered(atom: str, key_atoms: Set[str]) -> bool:
     return False
 
 
+def _whole(atom: str) -> str:
+    """the input an atom is about, without trailing slice markers"""
+    while atom.endswith(".[:]"):
+        atom = atom[:-4]
+    return atom.replace(".[:].", ".")
+
+
 def _junk(atom: str) -> bool:
     body = atom.split(":", 1)[1] if ":" in atom else atom
     return all(p == "*" for p in body.split(".")) or body == ""
@@ -89,7 +96,9 @@ def rule_key_t2(ctx) -> Set[str]:
     val_atoms: Set[str] = set()
     for kw in res[0].ast.value.keywords:
         if kw.arg in ("retrieved", "graph_deltas_residual"):
-            val_atoms |= {a for a in pe.atoms(fn, kw.value, res[0], control=True) if not _junk(a)}
+            # a slice on the VALUE side (the clock parser looks at s[-1:]) still means "depends on that input": only on the
+            # key side does `.[:]` say that a part of the input is all the key sees
+            val_atoms |= {_whole(a) for a in pe.atoms(fn, kw.value, res[0], control=True) if not _junk(a)}
     ctx.floor("C05.KEY", "input atoms of the cached T2 value", len(val_atoms), 15)
     n_cov = 0
     for a in sorted(val_atoms):
